@@ -50,7 +50,14 @@ var verifPtsOffMax int64 // 0 = pts==dts (what simple access units can express n
 
 func verifStub_H264ExtractInit(d *h264.DTSExtractor) {}
 
+// verifDTSOverride: set by the harness that feeds a real reordered (B-frame) sequence: the DTS the real extractor
+// computes for the next access unit (taken from mediacommon's own test vector)
+var verifDTSOverride *int64
+
 func verifStub_H264Extract(d *h264.DTSExtractor, au [][]byte, pts int64) (int64, error) {
+	if verifDTSOverride != nil {
+		return *verifDTSOverride, nil
+	}
 	if verifPtsOffMax == 0 {
 		return pts, nil
 	}
